@@ -129,8 +129,9 @@ pub fn agent_script<W: Write>(w: &mut W, st: &mut EStats, id: u64, g: &mut Sm, m
                 run.op(t, &mut rng, &EOp::Step);   // old quotes out before the new ones go in
                 for a in 0..assets {
                     let tk = ticks[a] as i64;
-                    run.op(t, &mut rng, &EOp::Place { a, bid: true, vol: 1_000_000, trader: 999, price: Some(((mid - 2) * tk) as u32) });
-                    run.op(t, &mut rng, &EOp::Place { a, bid: false, vol: 1_000_000, trader: 999, price: Some(((mid + 2) * tk) as u32) });
+                    let hs = if mid % 2 == 0 { 4 } else { 3 };   // the path is in half ticks
+                    run.op(t, &mut rng, &EOp::Place { a, bid: true, vol: 1_000_000, trader: 999, price: Some((((mid - hs) / 2) * tk) as u32) });
+                    run.op(t, &mut rng, &EOp::Place { a, bid: false, vol: 1_000_000, trader: 999, price: Some((((mid + hs) / 2) * tk) as u32) });
                 }
                 run.op(t, &mut rng, &EOp::Step);
             } else if s == 0 && g.chance(2, 3) {
